@@ -12,6 +12,7 @@ import Nstd.Generated.HashFn
     remove t k | removeAt t pos | removeVal t pos | removeFront t | removeBack t | clear t | swap t
     appendAll t | removeAll t | setval t k v | hashstr <hex>
     assignSelf t | swapSelf t | appendSelf t | removeSelf t     the object itself as the `other` argument
+    front t | back t | iterate t | iterBack t (and frontC, backC, iterateC, iterBackC: the const overloads) | entryAt t pos | notEqual t u
     origin n                             String-key build: form of the key arguments (owned, spare capacity, attached view, shared, …)
     hashnum w s x                        integral hash overloads: width, signedness, bit pattern
     hashptr x                            hash(const void*) of the address x
@@ -76,6 +77,12 @@ def outStr : Out → String
   | .onum none => "-"
   | .flag b => if b then "1" else "0"
   | .entries l => if l.isEmpty then "-" else ",".intercalate (l.map (fun e => s!"{e.1}:{e.2}"))
+
+/-- result of an op line: `unit` / `num n` / `bad-op` as before, a query line (`iterate`, `notEqual`, …) `res <value>` -/
+def resStr (o : Out) : String :=
+  match o with
+  | .unit | .num _ => outStr o
+  | _ => "res " ++ outStr o
 
 /-- query through the chain-list model (`ptr = false`) or the pointer model -/
 def query (ptr : Bool) (d : DState) (op : Op) : String :=
@@ -162,6 +169,18 @@ def parseOp (ws : List String) : Option Op :=
   | ["appendAll", t] => do pure (.appendAll (← tab t))
   | ["removeAll", t] => do pure (.removeAll (← tab t))
   | ["setval", t, k, v] => do pure (.setValue (← tab t) (← k.toNat?) (← v.toNat?))
+  -- queries as op lines; the `…C` lines run the const overloads (`front() const`, `Iterator operator++() const`, …) in
+  -- the harness: same fields read, same model op
+  | ["front", t] => do pure (.front (← tab t))
+  | ["frontC", t] => do pure (.front (← tab t))
+  | ["back", t] => do pure (.back (← tab t))
+  | ["backC", t] => do pure (.back (← tab t))
+  | ["iterate", t] => do pure (.iterate (← tab t))
+  | ["iterateC", t] => do pure (.iterate (← tab t))
+  | ["iterBack", t] => do pure (.iterBack (← tab t))
+  | ["iterBackC", t] => do pure (.iterBack (← tab t))
+  | ["entryAt", t, p] => do pure (.entryAt (← tab t) (← p.toNat?))
+  | ["notEqual", t, u] => do pure (.notEqual (← tab t) (← tab u))
   | ["assignSelf", t] => do pure (.assignSelf (← tab t))
   | ["swapSelf", t] => do pure (.swapSelf (← tab t))
   | ["appendSelf", t] => do pure (.appendSelf (← tab t))
@@ -215,7 +234,7 @@ def stepLine (d : DState) (ws : List String) : DState × String :=
       match step d.kind (hashFn d.mode) d.st op, Ptr.pstep d.kind (hashFn d.mode) d.pst op with
       | some (st', o), some (pst', po) =>
         let d' := { d with st := st', pst := pst' }
-        (d', if o = po then obs d' (outStr o) else s!"MODEL-MISMATCH result list={outStr o} ptr={outStr po}")
+        (d', if o = po then obs d' (resStr o) else s!"MODEL-MISMATCH result list={outStr o} ptr={outStr po}")
       | none, none => (d, "bad-op")
       | some _, none => (d, "MODEL-MISMATCH ptr model rejects")
       | none, some _ => (d, "MODEL-MISMATCH list model rejects")
